@@ -99,16 +99,20 @@ func c02Fixture(t TB, caps []uint64) (*sess, []uint32, []ref.Key) {
 }
 
 func TestC02ExhaustiveShortSequences(t *testing.T) {
-	ev.Rule("C02(i): EXHAUSTIVE - all 1555 sequences of length 0..4 over the alphabet {A, A' (same content, second valid signature), B, limit, limit+1, negative} for one slot, each on a fresh (device, slot); oracle f(S) on the set of distinct datagrams + full-state comparison with the sequential model after every datagram")
+	ev.Rule("C02(i): EXHAUSTIVE - all 1555 sequences of length 0..4 (thorough tier: all 9331 of length 0..5) over the alphabet {A, A' (same content, second valid signature), B, limit, limit+1, negative} for one slot, each on a fresh (device, slot); oracle f(S) on the set of distinct datagrams + full-state comparison with the sequential model after every datagram")
 	const capacity = 1000 // limit 1350
-	s, ids, keys := c02Fixture(t, []uint64{capacity, capacity})
+	s, ids, keys := c02Fixture(t, []uint64{capacity, capacity, capacity})
 	defer s.cleanup()
 	alpha := c02Alphabet()
 	var seqs [][]int
+	maxLen := 4
+	if thorough() {
+		maxLen = 5 // 9331 sequences
+	}
 	var rec func(prefix []int)
 	rec = func(prefix []int) {
 		seqs = append(seqs, append([]int(nil), prefix...))
-		if len(prefix) == 4 {
+		if len(prefix) == maxLen {
 			return
 		}
 		for i := range alpha {
@@ -116,10 +120,10 @@ func TestC02ExhaustiveShortSequences(t *testing.T) {
 		}
 	}
 	rec(nil)
-	if len(seqs) != 1555 {
+	if (maxLen == 4 && len(seqs) != 1555) || (maxLen == 5 && len(seqs) != 9331) {
 		t.Fatalf("harness: %d sequences", len(seqs))
 	}
-	// slots 0..4031 of two devices give 8064 fresh (device, slot) pairs
+	// slots 0..4031 of three devices give 12096 fresh (device, slot) pairs
 	next := 0
 	for _, seq := range seqs {
 		dev := next / 4032
@@ -145,11 +149,11 @@ func TestC02ExhaustiveShortSequences(t *testing.T) {
 		if len(seq) >= 2 {
 			ev.NonTrivial("c02|seq|" + names)
 		}
-		if len(seq) == 4 && next%97 == 0 {
+		if len(seq) >= 4 && next%97 == 0 {
 			ev.Sample("c02:exhaustive-sequence", map[string]interface{}{"sequence": names, "final": setValue(S, capacity)})
 		}
 	}
-	ev.Exhaustive("c02: all sequences of length<=4 over {A,A',B,limit,limit+1,negative} (1555)")
+	ev.Exhaustive(fmt.Sprintf("c02: all sequences of length<=%d over {A,A',B,limit,limit+1,negative} (%d)", maxLen, len(seqs)))
 	s.crossCheckAPI()
 	s.close()
 }
